@@ -149,7 +149,30 @@ def grid_idl(rng, n, g, first=None):
     return range(lst[0], lst[-1] + int(d[0]), int(d[0])) if len(set(d)) == 1 else [int(x) for x in lst]
 
 
+_RSG = [0]
 LAYOUT_CLASSES = ['same', 'strided', 'gapped', 'overlap', 'replica_subset', 'second_ensemble', 'multi_replica', 'bare_name', 'replica_subset_gapped', 'windows', 'prefix_ensembles', 'fake_union']
+
+
+def twin_list(lst):
+    """another irregular list with the same length, first and last entry, the same smallest spacing and (when two entries can be moved) the same
+    sum, but holes at other places: the cheap signatures a cache might key a configuration list by do not tell the two apart"""
+    lst = [int(x) for x in lst]
+    if len(lst) < 5:
+        return None
+    g = int(min(np.diff(lst)))
+    out = list(lst)
+    up = [a for a in range(1, len(out) - 1) if out[a] + g not in out and out[a] + g < out[-1]]
+    for a in up:
+        for b in range(len(out) - 2, a, -1):
+            if out[b] - g not in out and out[a] + g < out[b] - g:
+                out[a], out[b] = out[a] + g, out[b] - g
+                out = sorted(out)
+                return out if int(min(np.diff(out))) == g and out != lst else None
+    if up:
+        out[up[0]] += g
+        out = sorted(out)
+        return out if int(min(np.diff(out))) == g else None
+    return None
 
 
 def operand_layouts(rng, cls, k, nmin=5, nmax=24):
@@ -191,9 +214,10 @@ def operand_layouts(rng, cls, k, nmin=5, nmax=24):
         return res
     if cls == 'replica_subset_gapped':
         # operands that lack whole replicas AND are measured on fewer configurations on the replicas they have
-        nrep = int(rng.integers(2, 4))
+        _RSG[0] += 1
+        paired = _RSG[0] % 2 == 0 and k >= 2     # every second request: the second operand sits on exactly two of three replicas, thinned on one of them only
+        nrep = 3 if paired else int(rng.integers(2, 4))
         g = int(rng.choice([1, 1, 2]))
-        base = [range(int(rng.integers(1, 10)), int(rng.integers(1, 10)) + 0, 1) for _ in range(nrep)]
         base = []
         for _ in range(nrep):
             first = int(rng.integers(1, 10))
@@ -205,6 +229,10 @@ def operand_layouts(rng, cls, k, nmin=5, nmax=24):
             else:
                 m = int(rng.integers(1, nrep + 1))
                 reps = sorted(rng.choice(nrep, size=m, replace=False).tolist())
+            if paired and i == 1:
+                reps = [[0, 1], [0, 2], [1, 2]][(_RSG[0] // 2) % 3]
+                res.append([('A|r%d' % (reps[0] + 1), sub_idl(rng, base[reps[0]], ['stride', 'random', 'prefix'][(_RSG[0] // 6) % 3], nmin=nmin)), ('A|r%d' % (reps[1] + 1), base[reps[1]])])
+                continue
             res.append([('A|r%d' % (r + 1), base[r] if (i == 0 or rng.random() < 0.3) else sub_idl(rng, base[r], str(rng.choice(['prefix', 'suffix', 'stride', 'random'])), nmin=nmin))
                         for r in reps])
         return res
